@@ -25,10 +25,13 @@ pkgdir() { # package clause of a demo test -> directory in the repository
   esac
 }
 rundemo() { # $1 = tree; prints the demo's exit status (0 = behaves as the property demands)
-  if [ -f $sd/run_demo.sh ]; then
+  exp=""
+  [ -f $sd/expected.txt ] && exp=$sd/expected.txt
+  [ -z "$exp" ] && [ -f $sd/expected.out ] && exp=$sd/expected.out
+  if [ -f $sd/demo.calc ] && [ -n "$exp" ]; then
+    (cd $1 && timeout 180 go run ./cmd/calc $sd/demo.calc 2>&1 | diff -q - $exp >/dev/null 2>&1); echo $?
+  elif [ -f $sd/run_demo.sh ]; then
     (timeout 180 sh $sd/run_demo.sh $1 >/tmp/seedwt_demo.out 2>&1); echo $?
-  elif [ -f $sd/demo.calc ] && [ -f $sd/expected.txt ]; then
-    (cd $1 && timeout 180 go run ./cmd/calc $sd/demo.calc 2>&1 | diff -q - $sd/expected.txt >/dev/null 2>&1); echo $?
   elif ls $sd/*_test.go >/dev/null 2>&1; then
     rc=0
     for t in $sd/*_test.go; do
